@@ -2,6 +2,7 @@ import CelModel.Eval
 import CelModel.Macros
 import CelModel.CtxOps
 import CelModel.Refs
+import CelModel.Parser
 /-!
 # Line protocol: s-expressions, decoding of cases, printing of answers
 
@@ -274,6 +275,27 @@ def answer (kind : String) (payload : List Sx) : String :=
   | "eval", [c, e] =>
     let (o, st) := execute (decCtx c) (decExpr e)
     "(res " ++ encOutcome encValue o ++ " " ++ encLog st.log ++ ")"
+  | "run", [c, .atom src] =>
+    (match Parser.compile (atomStr src) with
+     | some e =>
+       let (o, st) := execute (decCtx c) e
+       "(res " ++ encOutcome encValue o ++ " " ++ encLog st.log ++ ")"
+     | none => "(res (compile-error) (log))")
+  | "compile", [.atom src] =>
+    (match Parser.compile (atomStr src) with
+     | some e => "(ast " ++ encExpr e ++ ")"
+     | none => "(reject)")
+  | "lex", [.atom src] =>
+    let (ts, errs) := Lexer.lex (atomStr src)
+    "(toks " ++ toString errs ++ String.join (ts.map (fun t => match t with
+      | .sym s => " (sym " ++ nameAtom s ++ ")"
+      | .ident s => " (ident " ++ strAtom s ++ ")"
+      | .escIdent s => " (esc " ++ strAtom s ++ ")"
+      | .int s => " (int " ++ strAtom s ++ ")"
+      | .uint s => " (uint " ++ strAtom s ++ ")"
+      | .float s => " (float " ++ strAtom s ++ ")"
+      | .str s => " (str " ++ strAtom s ++ ")"
+      | .bytes s => " (bytes " ++ strAtom s ++ ")")) ++ ")"
   | "cmp2", [a, b] =>
     let va := decValue a; let vb := decValue b
     let bit := fun (x : Bool) => if x then "1" else "0"
